@@ -199,14 +199,14 @@ func ParseControlFile(data []byte) (*ControlFile, error) {
 	cpTime := int64(binary.LittleEndian.Uint64(data[104:112]))
 	cf.CheckpointTime = pgEpochToTime(cpTime)
 
-	// CheckPoint.oldestActiveXid: TransactionId at offset 112
-	cf.OldestActiveXID = binary.LittleEndian.Uint32(data[112:116])
+	// CheckPoint.oldestCommitTsXid: TransactionId at offset 112
+	cf.OldestCommitTsXID = binary.LittleEndian.Uint32(data[112:116])
 
-	// CheckPoint.oldestCommitTsXid: TransactionId at offset 116
-	cf.OldestCommitTsXID = binary.LittleEndian.Uint32(data[116:120])
+	// CheckPoint.newestCommitTsXid: TransactionId at offset 116
+	cf.NewestCommitTsXID = binary.LittleEndian.Uint32(data[116:120])
 
-	// CheckPoint.newestCommitTsXid: TransactionId at offset 120
-	cf.NewestCommitTsXID = binary.LittleEndian.Uint32(data[120:124])
+	// CheckPoint.oldestActiveXid: TransactionId at offset 120
+	cf.OldestActiveXID = binary.LittleEndian.Uint32(data[120:124])
 
 	// After CheckPoint structure, more fields follow
 	// The exact offsets depend on version, but we can search for known patterns
